@@ -36,6 +36,7 @@ import (
 	"sort"
 	"strconv"
 	"strings"
+	"sync"
 	"syscall"
 	"time"
 
@@ -1765,13 +1766,13 @@ func decodeWire(c *Ctx, cases *[]Case) {
 		wire = append(wire, wireFrame(1, 2, []byte("ok"))...)
 		for _, api := range []string{"recvc", "readmsg"} {
 			w := newWWorldP(c, fmt.Sprintf("wire-flood k=%d %s", k, api), wire, floodPayload(k), false)
-			t0 := time.Now()
+			t0, cpu0 := time.Now(), cpuTime()
 			if api == "recvc" {
 				w.recvc()
 			} else {
 				w.readmsg()
 			}
-			if d := time.Since(t0); d > 20*time.Second {
+			if d := time.Since(t0); slowAndBusy(c, t0, cpu0, 20*time.Second) {
 				c13Violate(c, Violation{Property: "C13", Key: "C13:time:stream." + api, What: fmt.Sprintf("%d empty partial frames took %v", k, d), Ops: []string{"# " + w.label}, Expected: "linear time", Observed: d.String()})
 			}
 			c.Count("wire:flood")
@@ -1802,7 +1803,7 @@ func guardLeaf(c *Ctx, entry string, in string, f func()) {
 				Ops: []string{entry + " " + strconv.Quote(clip(in, 200))}, Expected: "a value or an error", Observed: fmt.Sprint(p)})
 		}
 	}()
-	t0 := time.Now()
+	t0, cpu0 := time.Now(), cpuTime()
 	var m0, m1 runtime.MemStats
 	measure := len(in) >= 1024 // (short inputs: the fixed costs of the parsers dominate; panics and time still checked)
 	if measure {
@@ -1819,10 +1820,33 @@ func guardLeaf(c *Ctx, entry string, in string, f func()) {
 		}
 		c.Count("leaf:alloc-measured")
 	}
-	if d := time.Since(t0); d > 5*time.Second {
+	if d := time.Since(t0); slowAndBusy(c, t0, cpu0, 5*time.Second) {
 		c13Violate(c, Violation{Property: "C13", Key: "C13:time:" + entry, What: fmt.Sprintf("%s took %v on %d bytes", entry, d, len(in)),
 			Ops: []string{entry + " " + strconv.Quote(clip(in, 200))}, Expected: "time linear in the input", Observed: d.String()})
 	}
+}
+
+// cpuTime: processor time this process has consumed (user + system).
+func cpuTime() time.Duration {
+	var ru syscall.Rusage
+	if syscall.Getrusage(syscall.RUSAGE_SELF, &ru) != nil {
+		return 0
+	}
+	return time.Duration(ru.Utime.Nano() + ru.Stime.Nano())
+}
+
+// slowAndBusy: the call took longer than the (generous) bound AND the process burnt a fair share of
+// that on the processor. Super-linear work is processor time; a call that was merely descheduled on
+// a loaded machine shows a long wall clock and little processor time, and is counted, not reported.
+func slowAndBusy(c *Ctx, t0 time.Time, cpu0 time.Duration, bound time.Duration) bool {
+	if time.Since(t0) <= bound {
+		return false
+	}
+	if cpu := cpuTime() - cpu0; cpu0 > 0 && cpu < bound/4 {
+		c.Count("slow-wall-clock-little-cpu:not-judged")
+		return false
+	}
+	return true
 }
 
 func clip(s string, n int) string {
@@ -2198,20 +2222,34 @@ func runChildJobs(c *Ctx, jobs []childJob, cases *[]Case) error {
 	for start < len(jobs) {
 		cmd := exec.Command(exe, "decodechild", "-out", filepath.Join(dir, "child.json"), "-seed", fmt.Sprint(c.Seed), "-oracle", c.Oracle)
 		cmd.Env = append(os.Environ(), "VERIF_C13_JOBS="+jp, fmt.Sprintf("VERIF_C13_START=%d", start), "GOMEMLIMIT=4GiB", "GOTRACEBACK=single")
-		var so, se bytes.Buffer
+		var so progressBuf
+		var se bytes.Buffer
 		cmd.Stdout, cmd.Stderr = &so, &se
 		done := make(chan error, 1)
 		if err := cmd.Start(); err != nil {
 			return err
 		}
 		go func() { done <- cmd.Wait() }()
+		// the child reports START / RESULT per job: it is killed when it stops PROGRESSING (no new output
+		// for two minutes: one job hangs), not when the whole batch takes long on a busy machine
 		timedOut := false
-		select {
-		case <-done:
-		case <-time.After(120 * time.Second):
-			_ = cmd.Process.Kill()
-			<-done
-			timedOut = true
+		lastLen, lastChange := 0, time.Now()
+	waitChild:
+		for {
+			select {
+			case <-done:
+				break waitChild
+			case <-time.After(500 * time.Millisecond):
+				if n := so.Len(); n != lastLen {
+					lastLen, lastChange = n, time.Now()
+				}
+				if time.Since(lastChange) > 120*time.Second {
+					_ = cmd.Process.Kill()
+					<-done
+					timedOut = true
+					break waitChild
+				}
+			}
 		}
 		last := start - 1
 		started := -1
@@ -2433,3 +2471,17 @@ func runDecode(c *Ctx) error {
 	defer timed("oracle")
 	return diffBatch(c, "decode", cases, nil)
 }
+
+// progressBuf: a buffer a child's output is copied into while the parent watches its length.
+type progressBuf struct {
+	mu sync.Mutex
+	b  bytes.Buffer
+}
+
+func (p *progressBuf) Write(x []byte) (int, error) {
+	p.mu.Lock()
+	defer p.mu.Unlock()
+	return p.b.Write(x)
+}
+func (p *progressBuf) Len() int       { p.mu.Lock(); defer p.mu.Unlock(); return p.b.Len() }
+func (p *progressBuf) String() string { p.mu.Lock(); defer p.mu.Unlock(); return p.b.String() }
